@@ -71,6 +71,40 @@ class Listener(ConsumerRebalanceListener):
         self.net.ev("cb_assigned_end", c=self.name, gen=g, member=m, assignment=snap)
 
 
+class PlainListener(Listener):
+    """the documented alternative shapes of a listener ("a coroutine or function"): plain functions, one of
+    which hands back a coroutine that the library has to await"""
+
+    def __init__(self, net, name, holder, delay, kind):
+        super().__init__(net, name, holder, delay)
+        self.kind = kind
+
+    def on_partitions_revoked(self, revoked):
+        if self.kind == "returns_coroutine":
+            return Listener.on_partitions_revoked(self, revoked)      # a coroutine object from a plain callable
+        g, m = self._gen()                                           # "sync": everything happens synchronously
+        self.net.ev("cb_revoked_begin", c=self.name, tps=sorted([tp.topic, tp.partition] for tp in revoked),
+                    gen=g, member=m)
+        self.net.ev("cb_revoked_end", c=self.name, gen=g, member=m)
+
+    def on_partitions_assigned(self, assigned):
+        if self.kind == "returns_coroutine":
+            return Listener.on_partitions_assigned(self, assigned)
+        g, m = self._gen()
+        self.net.ev("cb_assigned_begin", c=self.name, tps=sorted([tp.topic, tp.partition] for tp in assigned),
+                    gen=g, member=m)
+        c = self.holder.get("c")
+        snap = sorted([tp.topic, tp.partition] for tp in c.assignment()) if c else None
+        self.net.ev("cb_assigned_end", c=self.name, gen=g, member=m, assignment=snap)
+
+
+def make_listener(net, name, holder, cfg):
+    kind = cfg.get("listener_kind", "async")
+    if kind == "async":
+        return Listener(net, name, holder, cfg.get("cb_delay", 0))
+    return PlainListener(net, name, holder, cfg.get("cb_delay", 0), kind)
+
+
 # ---------------------------------------------------------------------------------------------------
 # Member-side probe (C06 convergence correspondence; active only for scenarios with "probe": true).
 # Installed from outside on the GroupCoordinator class: the wrappers call the original code unchanged and
@@ -409,7 +443,7 @@ def run_scenario(sc):
                         c = AIOKafkaConsumer(**kw)
                         holder["c"] = c
                         consumers[name] = c
-                        lst = Listener(net, name, holder, cfg.get("cb_delay", 0))
+                        lst = make_listener(net, name, holder, cfg)
                         if cfg.get("pattern"):
                             c.subscribe(pattern=cfg["pattern"], listener=lst)
                         else:
@@ -442,7 +476,7 @@ def run_scenario(sc):
                             net.ev("commit_ret", c=name, ok=False, exc=type(e).__name__)
                     elif kind == "subscribe":
                         c.unsubscribe()
-                        c.subscribe(op[1], listener=Listener(net, name, holder, cfg.get("cb_delay", 0)))
+                        c.subscribe(op[1], listener=make_listener(net, name, holder, cfg))
                         net.ev("subscribe", c=name, topics=op[1])
                     elif kind == "stop":
                         t0 = loop.time()
